@@ -17,7 +17,7 @@ func init() {
 	register(&Property{
 		Meta: report.Meta{
 			Property:    "C18",
-			Explanation: "Error-discipline analysis (engine E6) over the stream-handling code: the set S of functions of packages container, token, delegation, invocation, envelope reachable from the exported functions that take an io.Reader / io.Writer (plus the CIDReader/CIDWriter methods) is computed on the in-module call graph; in S every call, defer or go whose callee returns an error and that is stream-related (its receiver or an argument implements io.Reader or io.Writer, or the callee is itself in S) must not lose that error: the error value must be used, every path on which it is tested non-nil must end in a failure return / false / panic or hand the error to the iterator consumer, and a deferred call may not return an error. Exemptions are a frozen table with reasons (hash.Hash.Write never fails; io.EOF ends the CAR iteration - the documented undetectable cut; calls on paths that already return an error). (R2) ldRead converts io.EOF from ReadUvarint / ReadFull into io.ErrUnexpectedEOF and only the Peek EOF propagates as a clean end; (R3) CIDReader.Read latches every non-EOF error and CID() returns it; FromSealedReader requires CID() to succeed. Independence from chunking is the contract of bufio / io.ReadFull / base64 / refmt and is not decided. (R4) no object is put back into a sync.Pool while still reachable from what the function returns (positive example under lint/testdata/canary/pool). A function literal run by defer may store an error only into a named result of the enclosing function. On a path that reaches a success return without testing the error of a stream-related call, the error is returned, stored, passed to a call or appears in a fact. No instruction of a library function stores through, or lets copy / append / Put* / Read / a dst or buf parameter fill, a package-level array or slice of numbers, bytes.Buffer or strings.Builder. (R5) every io.Reader / io.Writer argument of a call that leaves the module originates in a parameter, a captured variable, a field, a value of a module type or bufio / base64 / bytes constructors. A call of a Read([]byte)(int,error) method in a function of the stream-handling packages that is not itself named Read sits in a block on a CFG cycle; the canary package lint/testdata/canary/stream must yield exactly its seeded site.",
+			Explanation: "Error-discipline analysis (engine E6) over the stream-handling code: the set S of functions of packages container, token, delegation, invocation, envelope reachable from the exported functions that take an io.Reader / io.Writer (plus the CIDReader/CIDWriter methods) is computed on the in-module call graph; in S every call, defer or go whose callee returns an error and that is stream-related (its receiver or an argument implements io.Reader or io.Writer, or the callee is itself in S) must not lose that error: the error value must be used, every path on which it is tested non-nil must end in a failure return / false / panic or hand the error to the iterator consumer, and a deferred call may not return an error. Exemptions are a frozen table with reasons (hash.Hash.Write never fails; io.EOF ends the CAR iteration - the documented undetectable cut; calls on paths that already return an error). (R2) ldRead converts io.EOF from ReadUvarint / ReadFull into io.ErrUnexpectedEOF and only the Peek EOF propagates as a clean end; (R3) CIDReader.Read latches every non-EOF error and CID() returns it; FromSealedReader requires CID() to succeed. Independence from chunking is the contract of bufio / io.ReadFull / base64 / refmt and is not decided. (R4) no object is put back into a sync.Pool while still reachable from what the function returns (positive example under lint/testdata/canary/pool). A function literal run by defer may store an error only into a named result of the enclosing function. On a path that reaches a success return without testing the error of a stream-related call, the error is returned, stored, passed to a call or appears in a fact. No instruction of a library function stores through, or lets copy / append / Put* / Read / a dst or buf parameter fill, a package-level array or slice of numbers, bytes.Buffer or strings.Builder. (R5) every io.Reader / io.Writer argument of a call that leaves the module originates in a parameter, a captured variable, a field, a value of a module type or bufio / base64 / bytes constructors. A call of a Read([]byte)(int,error) method in a function of the stream-handling packages that is not itself named Read sits in a block on a CFG cycle; the canary package lint/testdata/canary/stream must yield exactly its seeded site. (R2) a path of the iterator literal of readCar that returns after readBlock answered a non-nil error, without a yield that received that error, has the fact err == io.EOF.",
 			Assumptions: []string{"bufio, io.ReadFull, encoding/base64 and the refmt-based codecs are correct under arbitrary chunking", "hash.Hash.Write never returns an error (documented)"},
 			Trusted:     []string{"bufio", "io", "encoding/base64", "go-ipld-prime codecs", "golang.org/x/tools/go/ssa v0.29.0"},
 			NotDecided:  []string{"chunking independence", "byte equality of streamed and buffered output (runtime values)"},
@@ -33,7 +33,7 @@ var c18Exempt = map[string]string{
 
 func runC18(x *Ctx) {
 	x.C.Rule("C18.R1", "no error of a stream-related call is dropped in the stream-handling code", 40)
-	x.C.Rule("C18.R2", "ldRead: unexpected EOF inside a section is not a clean end; no other refusal", 5)
+	x.C.Rule("C18.R2", "ldRead: unexpected EOF inside a section is not a clean end; no other refusal; the CAR iterator ends silently on io.EOF only", 6)
 	x.C.Rule("C18.R3", "CIDReader latches read errors; CID() reports them", 3)
 	x.C.Rule("C18.R4", "stream code shares no pooled state that outlives a call and no package-level scratch buffer", 3)
 	carWriterAbort(x, "C18.R1")
@@ -50,6 +50,49 @@ func runC18(x *Ctx) {
 
 	if f := x.fn("C18.R2", ctnPkg+"ldRead"); f != nil {
 		ldReadRules(x, f)
+	}
+	// the CAR iterator ends silently only at a clean end: every path of the iterator literal that stops after readBlock
+	// failed, without having handed the error to its consumer, knows the error to be io.EOF itself (ldRead turns an
+	// EOF inside a section into io.ErrUnexpectedEOF; an errors.Is test would also take an error that merely wraps
+	// io.EOF - a dropped connection - for the end of the container)
+	if rc := x.fn("C18.R2", ctnPkg+"readCar"); rc != nil {
+		nI, badI := 0, ""
+		for _, lit := range rc.AnonFuncs {
+			for _, p := range x.pathsQuiet(lit) {
+				if p.End != paths.EndReturn {
+					continue
+				}
+				var rb *paths.Term
+				for _, c := range p.Calls() {
+					if ct := p.Term(c); ct != nil && ct.Op == "call" && ct.Name == ctnPkg+"readBlock" {
+						rb = ct
+					}
+				}
+				if rb == nil {
+					continue
+				}
+				e := rb.String() + "#1"
+				if p.HasFact(eqs(e, "const(nil)"), true) {
+					continue // a block was read: the consumer asked to stop
+				}
+				handed := false
+				for _, fc := range p.Facts {
+					if fc.Atom.Op == "dyncall" {
+						for _, a := range fc.Atom.Args[1:] {
+							if a != nil && a.String() == e {
+								handed = true
+							}
+						}
+					}
+				}
+				nI++
+				if handed || p.HasFact(eqs("*global(io.EOF)", e), true) {
+					continue
+				}
+				badI += "the iterator stops without reporting an error that is not known to be io.EOF itself:\n" + p.String() + "\n"
+			}
+		}
+		x.C.Obl("C18.R2", "clean-end:readCar", x.pos(rc), "the CAR iterator ends silently only when readBlock answered io.EOF itself", badI == "" && nI >= 2, firstLines(badI, 12))
 	}
 	if f := x.fn("C18.R3", "(*"+envPkg+"CIDReader).Read"); f != nil {
 		inner := "invoke[io.Reader.Read](recv.r,arg0)#1"
